@@ -272,7 +272,67 @@ fn blocking_scenario(h: &mut Harness) -> Result<Vec<(String, Value)>, String> {
     }
     a.discard();
     let _ = h.srv.as_ref().unwrap().steps(2);
+    // second scenario: a call on two keys in db 1 is served through one of them; the client moves to db 2 and blocks on
+    // the other key's name there; a push to that name in db 1 is not for it (a seeded lazy clean-up of the leftover
+    // registration looked only at the database of the new call)
+    for first_timeout in ["0", "5"] {
+        h.aux_call(&["FLUSHALL"])?;
+        h.aux_call(&["SELECT", "0"])?;
+        let srv = h.srv.as_ref().unwrap();
+        let mut a = srv.connect().map_err(|e| format!("{:?}", e))?;
+        srv.call(&mut a, &["SELECT", "1"]).map_err(|e| format!("{:?}", e))?;
+        a.send(&resp::cmd(&["BLPOP", "qa", "qb", first_timeout]));
+        let _ = srv.steps(3);
+        h.aux_call(&["SELECT", "1"])?;
+        h.aux_call(&["RPUSH", "qa", "first"])?;
+        let srv = h.srv.as_ref().unwrap();
+        let _ = srv.steps(4);
+        a.poll();
+        match a.take_frame() {
+            Ok(Some(f)) if f == R::Arr(vec![R::Bulk(b"qa".to_vec()), R::Bulk(b"first".to_vec())]) => {}
+            other => devs.push(("C18|BLOCKING|two-key call not served through its first key".into(), json!({"received": format!("{:?}", other.map(|o| o.map(|f| resp::show(&f))))}))),
+        }
+        srv.call(&mut a, &["SELECT", "2"]).map_err(|e| format!("{:?}", e))?;
+        a.send(&resp::cmd(&["BLPOP", "qb", "0"]));
+        let _ = srv.steps(3);
+        // db 1 gets an element under the old name
+        h.aux_call(&["RPUSH", "qb", "db1-only"])?;
+        let srv = h.srv.as_ref().unwrap();
+        let _ = srv.steps(4);
+        a.poll();
+        if let Ok(Some(f)) = a.take_frame() {
+            devs.push(("C18|BLOCKING|client blocked in db 2 served by a push in db 1 through a leftover registration".into(), json!({"first_call_timeout": first_timeout, "received": resp::show(&f)})));
+        }
+        let l1 = h.aux_call(&["LRANGE", "qb", "0", "-1"])?;
+        if l1 != R::Arr(vec![R::Bulk(b"db1-only".to_vec())]) {
+            devs.push(("C18|BLOCKING|database-1-list-lost-its-element".into(), json!({"first_call_timeout": first_timeout, "lrange_db1": resp::show(&l1)})));
+        }
+        // the old call's deadline must not end the new call
+        vtime_tick(6_000_000_000)?;
+        let srv = h.srv.as_ref().unwrap();
+        let _ = srv.steps(3);
+        a.poll();
+        if let Ok(Some(f)) = a.take_frame() {
+            devs.push(("C18|BLOCKING|call in db 2 ended by the deadline of the earlier call in db 1".into(), json!({"first_call_timeout": first_timeout, "received": resp::show(&f)})));
+        }
+        h.aux_call(&["SELECT", "2"])?;
+        h.aux_call(&["RPUSH", "qb", "db2"])?;
+        let srv = h.srv.as_ref().unwrap();
+        let _ = srv.steps(4);
+        a.poll();
+        match a.take_frame() {
+            Ok(Some(f)) if f == R::Arr(vec![R::Bulk(b"qb".to_vec()), R::Bulk(b"db2".to_vec())]) => {}
+            other => devs.push(("C18|BLOCKING|client blocked in db 2 not served by the push in db 2".into(), json!({"first_call_timeout": first_timeout, "received": format!("{:?}", other.map(|o| o.map(|f| resp::show(&f))))}))),
+        }
+        h.aux_call(&["SELECT", "0"])?;
+        a.discard();
+        let _ = h.srv.as_ref().unwrap().steps(2);
+    }
     Ok(devs)
+}
+
+fn vtime_tick(ns: u64) -> Result<(), String> {
+    crate::vtime::tick(ns).map_err(|_| "settle timeout during tick".to_string())
 }
 
 fn extra_worker(_tier: &str, task: &Value, _io: &mut WorkerIo) -> Option<Value> {
@@ -331,7 +391,7 @@ fn extra_parent(pool: &Pool, _tier: &str, report: &mut RunReport) -> Value {
             for d in v["devs"].as_array().cloned().unwrap_or_default() {
                 report.deviations.push(Deviation { property: "C18".into(), sig: d["sig"].as_str().unwrap_or("").to_string(), replay: json!({"kind": "scenario", "detail": d["detail"]}) });
             }
-            json!({"read_paths_and_blocking_scenario": {"read_path_probes": 4 * 11, "blocking_scenario_steps": 6},
+            json!({"read_paths_and_blocking_scenario": {"read_path_probes": 4 * 11, "blocking_scenario_steps": 6 + 2 * 9},
                 "write_paths": {"cases": write_cases, "product": "16 selected databases x 9 write commands x 6 paths (direct, MULTI/EXEC, queued SELECT, EVAL, EVALSHA, EVAL with pcall); all 16 databases seeded and read back"}})
         }
         Outcome::Died { status, .. } => {
